@@ -31,13 +31,14 @@ Make(k) == /\ N < MaxObj /\ k \in Kinds /\ k # "Conformer"
            /\ ngrp' = ngrp + NC /\ UNCHANGED nmut
            /\ last' = [act |-> "make", kind |-> k, equal |-> TRUE]
 
+EmptyOperandRoutes == {"or_e1", "or_e2", "concat_e1", "concat_e2"}     \* a | empty, empty | a, concatenate(a, empty), concatenate(empty, a)
 (* cells that the deviation makes a copy share with its source *)
-SharedBy(r) == IF "SharedAttribOnEvolve" \in Deviations /\ r \in {"construct", "concat", "or", "join", "upcast", "ensemble_from"}
+SharedBy(r) == IF "SharedAttribOnEvolve" \in Deviations /\ r \in {"construct", "concat", "or", "join", "upcast", "ensemble_from"} \cup EmptyOperandRoutes
                  THEN {"atomattr", "atomattr_e", "atomnest", "bondattr", "bondattr_e", "molnest"} ELSE {}
 
 (* cells of a product of TWO sources that are not defined by the first one: object-level attributes; for a join also the  *)
 (* second bond (the first fragment's bond to its attachment point is gone, the product's second bond is the other's)      *)
-NotInherited(r) == CASE r \in {"concat", "or"} -> {"molattr", "molnest"}
+NotInherited(r) == CASE r \in {"concat", "or"} \cup EmptyOperandRoutes -> {"molattr", "molnest"}
                      [] r = "join"   -> {"molattr", "molnest", "bondattr_e"}
                      [] OTHER        -> {}
 
@@ -48,7 +49,7 @@ Copy(rt, i) ==
          g == Grp(ngrp)
          inherits(c) == /\ c \in CellsOf[rt.to] \cap CellsOf[rt.from]
                         /\ (c \notin NotInherited(rt.r) \/ (c = "bondattr_e" /\ keep2))
-                        /\ ~("DropCharges" \in Deviations /\ c = "chg" /\ rt.r \in {"construct", "concat", "join"})
+                        /\ ~("DropCharges" \in Deviations /\ c = "chg" /\ rt.r \in {"construct", "concat", "join", "concat_e1", "concat_e2"})
      IN objs' = Append(objs, [kind |-> rt.to,
                               cnt  |-> [c \in Cell |-> IF inherits(c) THEN objs[i].cnt[c] ELSE 0],
                               grp  |-> [c \in Cell |-> IF c \in shared THEN objs[i].grp[c] ELSE g[c]],
